@@ -67,13 +67,13 @@ theorem execStep_unbounded (cfg : Config S) (P : NodeId → Proto S σ) (e : Ev 
 
 theorem init_unbounded (cfg : Config S) (P : NodeId → Proto S σ) : init (unbounded cfg) P = init cfg P := rfl
 
-theorem isDone_unbounded (cfg : Config S) (w : World S σ) :
+theorem isDone_unbounded_iff (cfg : Config S) (w : World S σ) :
     isDone (unbounded cfg) w = true ↔ w.loop.queue = [] := by
   unfold isDone unbounded
   cases w.loop.queue <;> simp
 
 theorem isDone_of_unbounded (cfg : Config S) (w : World S σ) (h : isDone (unbounded cfg) w = true) :
-    isDone cfg w = true := isDone_nil ((isDone_unbounded cfg w).mp h)
+    isDone cfg w = true := isDone_nil ((isDone_unbounded_iff cfg w).mp h)
 
 theorem finalise_rexecuted (cfg : Config S) (P : NodeId → Proto S σ) (w : World S σ) :
     (finalise cfg P w).rexecuted = w.rexecuted := by
